@@ -1003,7 +1003,10 @@ dt_strfdt(char *restrict buf, size_t bsz, const char *fmt, struct dt_dt_s that)
 				bp += __ordtostr(bp, eo - bp);
 			} else if (spec.bizda) {
 				/* don't print the b after an ordinal */
-				if (spec.ab == BIZDA_AFTER) {
+				if (UNLIKELY(bp >= eo)) {
+					/* no room */
+					;
+				} else if (spec.ab == BIZDA_AFTER) {
 					*bp++ = 'b';
 				} else {
 					*bp++ = 'B';
